@@ -66,6 +66,11 @@ func c10Template(c c10Case, image string) corev1.PodTemplateSpec {
 	t := w.Tpl(image)
 	if c.TplAnnots {
 		t.Annotations = map[string]string{v1.MD5NodeExtendedDaemonSetAnnotationKey: "5ta1e5ta1e", v1.MD5ExtendedDaemonSetAnnotationKey: "0ld0ld0ld"}
+		// ... and the labels that name the setting a pod was created with
+		if t.Labels == nil {
+			t.Labels = map[string]string{}
+		}
+		t.Labels[v1.ExtendedDaemonSetSettingNameLabelKey], t.Labels[v1.ExtendedDaemonSetSettingNamespaceLabelKey] = "a-setting-of-long-ago", "ns"
 	}
 	if c.Containers == 2 {
 		t.Spec.Containers = append(t.Spec.Containers, corev1.Container{Name: "side", Image: "sidecar"})
